@@ -426,9 +426,72 @@ fn c17(ctx: &Ctx) -> i32 {
     report.finish()
 }
 
-fn c20(_ctx: &Ctx) -> i32 {
-    eprintln!("C20 not built yet");
-    2
+fn c20(ctx: &Ctx) -> i32 {
+    let mut report = Report::new(ctx, "exploration");
+    report.assume("the relation is on sets and verdicts, never on orders; with a failing member only the verdict (and that the error names a failing member) is compared, since which siblings ran before the failure is schedule-dependent");
+    // replays
+    for path in replay_files(ctx) {
+        if let Ok(v) = read_replay(&path) {
+            let r = &v["replay"];
+            if r["engine"] == "SIM-c20" {
+                if let Ok(case) = serde_json::from_value::<super::sim::SimCase>(r["case"].clone()) {
+                    let res = eval_c20_sim(&case);
+                    if let Some(msg) = res.violation {
+                        println!("  replay {} still fails: {}", path.display(), msg);
+                        report.fail(Failure { message: msg, signature: res.signature.unwrap_or_default(), replay: res.replay });
+                    }
+                }
+            } else if r["engine"] == "BB-c20" {
+                if let Ok(case) = serde_json::from_value::<BbCase>(r["case"].clone()) {
+                    let res = eval_c20_bb(&case);
+                    if let Some(msg) = res.violation {
+                        println!("  replay {} still fails: {}", path.display(), msg);
+                        report.fail(Failure { message: msg, signature: res.signature.unwrap_or_default(), replay: res.replay });
+                    }
+                }
+            }
+        }
+    }
+    if ctx.replay.is_none() {
+        let params = SimParams {
+            max_n: ctx.tier.pick(8, 12),
+            watch: 0,
+            failures: 1,
+            early_term: 0,
+            withhold: 1,
+            max_notices: 0,
+            sched_len: ctx.tier.pick(150, 300),
+        };
+        let pr = PropRun {
+            ctx,
+            engine: "SIM",
+            rule: "metamorphic pairs on controlled schedules: graph containing an aggregate G (nested, empty, over builds / services / both, optionally with a failing member) x other requested targets X x schedule; run A requests {G} u X, run B requests deps(G) u X; same completed / skipped / service sets, same verdict, same keep-alive; non-trivial = G nested or empty or with a service behind it; distinct = G-shape classes x graph classes",
+            total_cases: ctx.tier.pick(20_000, 400_000),
+            threads: ctx.threads,
+            max_shrink_iters: 3000,
+            stream: 20,
+        };
+        let (part, failures) = run_prop(&pr, || super::sim::sim_case(params), eval_c20_sim);
+        report.add(part);
+        for f in failures {
+            report.fail(f);
+        }
+        let pr = PropRun {
+            ctx,
+            engine: "BB",
+            rule: "same relation through the real binary on two copies of the generated project: exit status class, set of finished scripts, alive-and-idle verdict (and service set when kept alive); non-trivial as above",
+            total_cases: ctx.tier.pick(24, 300),
+            threads: 8.min(ctx.threads),
+            max_shrink_iters: 30,
+            stream: 120,
+        };
+        let (part, failures) = run_prop(&pr, || bb_case(BbParams { max_n: 8, failures: false, services: true, rendezvous: false }), eval_c20_bb);
+        report.add(part);
+        for f in failures {
+            report.fail(f);
+        }
+    }
+    report.finish()
 }
 
 fn bb_part(
